@@ -1,7 +1,8 @@
 #!/bin/bash
 # seed_run_wt.sh <seed-name> [property] : like seed_run.sh, but the seeded change is applied to a scratch
 # worktree of /repo (removed afterwards) and the check is built against that worktree (VERIF_REPO_DIR), so
-# /repo itself stays untouched — for use while other runs are building from /repo.
+# /repo itself stays untouched — for use while other runs are building from /repo. Evidence and replay files
+# of the run go to /tmp/seed-out/<seed-name>/ (VERIF_OUT_DIR), never to /verif.
 name=$1; prop=${2:-${name%%-*}}
 cd /verif
 wt=/tmp/srw-$name
@@ -9,11 +10,7 @@ git -C /repo worktree remove --force $wt 2>/dev/null
 git -C /repo worktree add -q --detach $wt HEAD || exit 3
 trap 'git -C /repo worktree remove --force '$wt'; git -C /repo worktree prune' EXIT
 git -C $wt apply /verif/seeded/$name/patch.diff || exit 3
-before=$(ls replays | sort)
-cp evidence/$prop.json /tmp/evidence-$prop.keep-$name 2>/dev/null
-VERIF_REPO_DIR=$wt ./check $prop --tier ${TIER:-quick}; rc=$?
-mkdir -p /tmp/seed-evidence; cp evidence/$prop.json /tmp/seed-evidence/$name.json 2>/dev/null
-if [ -f /tmp/evidence-$prop.keep-$name ]; then mv /tmp/evidence-$prop.keep-$name evidence/$prop.json; fi
-for f in $(ls replays | sort); do case "$before" in *"$f"*) ;; *) mkdir -p /tmp/seed-replays/$name; mv replays/$f /tmp/seed-replays/$name/ ;; esac; done
+rm -rf /tmp/seed-out/$name; mkdir -p /tmp/seed-out/$name
+VERIF_REPO_DIR=$wt VERIF_OUT_DIR=/tmp/seed-out/$name ./check $prop --tier ${TIER:-quick}; rc=$?
 echo "seed=$name property=$prop rc=$rc"
 exit $rc
